@@ -114,6 +114,24 @@ def case_elements(ctx, rng):
     if bad:
         ctx.violation("element-value", f"elements differ from the vacuum expectation values: {dict(list(bad.items())[:4])} (index: (library, Fock))", wit)
         return
+    # the returned table is the caller's: editing it must not change what an equal request
+    # returns afterwards
+    if rng.random() < 0.3 and o.value:
+        try:
+            for k_ in list(o.value):
+                o.value[k_] = o.value[k_] * -3.0
+            o.value.pop(next(iter(o.value)))
+        except Exception:
+            pass
+        o_again = ctx.call(sr.build_local_fermionic_elements, [(c_, to_lib_term(sr, rng, t_)) for c_, t_ in terms], lib_bases)
+        ctx.evaluated()
+        ctx.count("feature", "repeat-after-editing-the-returned-table")
+        if o_again.ok:
+            g2 = {k: complex(v) for k, v in o_again.value.items()}
+            bad2 = {k: (g2.get(k, 0.0), exp.get(k, 0.0)) for k in set(g2) | set(exp) if abs(g2.get(k, 0.0) - exp.get(k, 0.0)) > 1e-12}
+            if bad2:
+                ctx.violation("element-value-after-editing-earlier-result", f"after the caller edited the table returned by an earlier equal request, the elements differ from the vacuum expectation values: {dict(list(bad2.items())[:3])}", wit)
+                return
     # dense builder consistent
     from symmray.fermionic_local_operators import build_local_fermionic_dense
 
